@@ -24,6 +24,8 @@ def run(ctx):
     if not all([fsu, pg, ms]):
         ctx.anchor_missing(R_P, "find_subgraph_unionfind / partition_graph / make_subgraphs")
         return
+    refdeps_rule(ctx, c, fsu)
+    accessgroups_rule(ctx, c)
     key = "dfir_lang|find_subgraph_unionfind"
     org = proto.Origins(fsu)
     pushes = calls_named(fsu, {"push"})
@@ -113,3 +115,75 @@ def run(ctx):
     ctx.inst(R_E, key2, sites=1, sample={"cycle_used_in_diagnostic": ok})
     if not ok:
         ctx.violation(R_E, key2 + "|cycle-not-reported", "the diagnostic for a same-tick cycle is not built from the cycle returned by the sorter", fsu.loc())
+
+
+def refdeps_rule(ctx, c, fsu):
+    """same-tick dependencies that stem from a handoff *reference* (producer before borrower, borrower before the handoff's consumers) and from access
+    groups are inserted regardless of tick_edges: a delayed pipe edge does not delay a reference"""
+    import guards
+    R = ctx.rule("C19.refdeps", "reference and access-group dependencies are inserted into the predecessor map unconditionally (never filtered by tick_edges)", floor=1)
+    key = "dfir_lang|find_subgraph_unionfind"
+    G = guards.Guards(fsu, {"contains_key"})
+    refs = [bb for bb, t in fsu.calls() if t.get("f") and t["f"]["name"] == "node_handoff_references" and not fsu.is_cleanup(bb)]
+    pushes = [bb for bb, t in fsu.calls() if t.get("f") and t["f"]["name"] == "push" and not fsu.is_cleanup(bb)]
+    # pushes that belong to the reference loop: dominated by the node_handoff_references call that is in a cycle with them
+    ref_pushes = [pb for pb in pushes if any(fsu.dominates(rb, pb) and rb in fsu.reachable(start=pb) for rb in refs)]
+    ctx.inst(R, key, sites=len(ref_pushes), sample={"reference_dependency_pushes": ref_pushes, "guards": [sorted(map(str, G.guards_of(pb))) for pb in ref_pushes]})
+    if len(ref_pushes) < 2:
+        ctx.anchor_missing(R, "the two reference-dependency insertions (producer->borrower, borrower->consumers) in find_subgraph_unionfind")
+    for pb in ref_pushes:
+        g = [x for x in G.guards_of(pb) if x[0] == "contains_key"]
+        if g:
+            ctx.violation(R, key + "|reference-dependency-filtered", "a dependency created by a handoff reference is inserted only when tick_edges does%s contain an edge: a reference is a same-tick "
+                          "dependency even if the consumer's pipe input is delayed, so a same-tick cycle through it would be accepted" % (" not" if not g[0][1] else ""), fsu.loc(pb))
+
+
+def accessgroups_rule(ctx, c, rid="C19.accessgroups"):
+    """access groups of one reference target are chained pairwise (overlapping windows) and every pair of members yields an ordering pair unconditionally"""
+    R = ctx.rule(rid, "access-group ordering: consecutive groups are chained with overlapping windows and every member pair is emitted unconditionally", floor=1)
+    b = c.bodies.get(MOD + "find_access_group_ordering")
+    if b is None:
+        ctx.anchor_missing(R, "find_access_group_ordering")
+        return
+    key = "dfir_lang|find_access_group_ordering"
+    names = [t["f"]["name"] for bb, t in b.calls() if t.get("f")]
+    pushes = [bb for bb, t in b.calls() if t.get("f") and t["f"]["name"] == "push" and not b.is_cleanup(bb)]
+    ctx.inst(R, key, sites=len(pushes), sample={"adaptors": [n for n in names if n in ("tuple_windows", "tuples", "windows", "chunks", "zip", "skip", "step_by", "array_windows")]})
+    if "tuple_windows" not in names and "windows" not in names and "array_windows" not in names:
+        ctx.violation(R, key + "|not-chained", "consecutive access groups are not paired with overlapping windows (tuple_windows): ordering between some adjacent groups is never emitted and the "
+                      "chain g0 < g1 < g2 ... loses its transitivity", b.loc())
+    if not pushes:
+        ctx.anchor_missing(R, "emission of ordering pairs in find_access_group_ordering")
+    # the push is conditional only on loop iteration (Option discriminants of next()) and on the conflict assertion
+    for pb in pushes:
+        for sb in range(b.n):
+            ts = b.term(sb)
+            if ts["k"] != "switch" or b.is_cleanup(sb):
+                continue
+            dp = op_place(ts["d"])
+            if not isinstance(dp, int):
+                continue
+            tgts = [t_ for _v, t_ in ts["ts"]] + [ts["o"]]
+            dom = [t_ for t_ in tgts if b.dominates(t_, pb) and len(b.preds(t_)) == 1]
+            if not dom or all(b.dominates(t_, pb) for t_ in tgts):
+                continue
+            # what is switched on?
+            kinds = set()
+            for db, idx, rv in b.defs_of(dp):
+                if idx == "term":
+                    f = rv.get("f") if rv["k"] == "call" else None
+                    kinds.add("call:" + (f["name"] if f else "?"))
+                elif rv["k"] == "discr":
+                    kinds.add("discr")
+                elif rv["k"] == "bin":
+                    kinds.add("bin:" + str(rv.get("op")))
+                elif rv["k"] == "use":
+                    kinds.add("use")
+                else:
+                    kinds.add(rv["k"])
+            benign = kinds <= {"discr", "call:ne", "call:eq", "bin:Eq", "bin:Ne", "use"}
+            # the assert_ne! comparison diverges on its failing edge; loop conditions are discriminants of next()
+            others = [t_ for t_ in tgts if t_ not in dom]
+            diverges = all(not (set(b.returns()) & b.reachable(start=o)) or b.dominates(sb, o) and pb in b.reachable(start=o) for o in others)
+            if not benign:
+                ctx.violation(R, key + "|conditional-pair", "an ordering pair between two access groups is emitted only under an extra condition (%s): some adjacent groups are left unordered" % sorted(kinds), b.loc(sb))
